@@ -176,6 +176,7 @@ for it in range(n):
                     lc.align()
                     k1 = rng.choice([1, 2, 3])
                     ms = list(lc.kbest_matches(k=k1, minlen=1, buffer=0, restart=True))
+                    first = [list(map(tuple, m.path)) for m in ms]
                     # a second call that continues the search must not hand out cells of the first
                     ms += list(lc.kbest_matches(k=2, minlen=1, buffer=0, restart=False))
                     got = [list(map(tuple, m.path)) for m in ms]
@@ -187,6 +188,23 @@ for it in range(n):
                 err = check_matches(got, ref, label, starts)
                 if err:
                     report(label, a, b, kw, err, matches=[[list(map(int, p)) for p in m] for m in got])
+                if use_c:
+                    # history: a call that consumes cells but yields nothing (no match is long enough), then a restart:
+                    # the restarted search must answer like a fresh object (compact C matrix, where a restart is exact)
+                    with contextlib.redirect_stdout(io.StringIO()):
+                        lc2 = LocalConcurrences(a, None if selfcmp else b, gamma=kw['gamma'], tau=kw['tau'], delta=kw['delta'],
+                                                delta_factor=kw['delta_factor'], only_triu=kw['only_triu'], penalty=kw['penalty'],
+                                                window=kw['window'], use_c=True)
+                        lc2.align()
+                        none = list(lc2.kbest_matches(k=3, minlen=10 ** 6, buffer=0, restart=True))
+                        again = [list(map(tuple, m.path)) for m in lc2.kbest_matches(k=k1, minlen=1, buffer=0, restart=True)]
+                    evaluations += 1
+                    if none:
+                        report(label, a, b, kw, 'kbest_matches(minlen=10**6) returned %d matches' % len(none))
+                    elif [[tuple(map(int, p)) for p in m] for m in again] != [[tuple(map(int, p)) for p in m] for m in first]:
+                        report(label, a, b, kw, 'restart after a call that yielded no match answers differently from a fresh object: '
+                               '%d matches instead of %d' % (len(again), len(first)),
+                               matches=[[list(map(int, p)) for p in m] for m in again])
             except Exception as e:      # noqa
                 report(label, a, b, kw, 'raised %s: %s' % (type(e).__name__, str(e)[:80]))
     if len(samples) < 3:
